@@ -163,6 +163,8 @@ Proof.
       * cbn [exec]. destruct e; [|apply le_refl]. apply le_bind; [apply IHe|]. intros. apply le_refl.
       * cbn [exec]. apply Hib.
       * cbn [exec]. apply le_bind; [apply le_print_args; exact IHe|]. intros _. apply le_refl.
+      * apply le_refl.
+      * apply le_refl.
 Qed.
 
 Corollary fuel_monotone n m : (n <= m)%nat ->
